@@ -169,6 +169,9 @@ where
         if stats.spurious_wakes > 0 {
             acc.count("spurious_condvar_wakeups_taken", stats.spurious_wakes);
         }
+        if stats.late_wakes > 0 {
+            acc.count("late_condvar_wakeups_taken", stats.late_wakes);
+        }
         last_distinct = stats.distinct_traces.len() as u64;
         if b == Some(0) || b.is_none() {
             // determinism: replaying the default schedule's recorded choices must reproduce
